@@ -168,6 +168,20 @@ def run_stream(state, stream, mode=0, file_backed=True):
         pdus = refpdu.parse_stream(wire)
     except refpdu.RefError as exc:
         raise Violation('C12:wire-malformed', '%s: bytes written by the library do not parse: %s' % (state, exc), case)
+    # (3b) once the provider has aborted (A-ABORT written), the association is over for it: nothing but further
+    #      A-ABORTs goes out and nothing but the abort is indicated
+    aborted = False
+    for e in sim.log:
+        if e[0] == 'send' and e[1][:1]:
+            if e[1][0] == 7:
+                aborted = True
+            elif aborted:
+                raise Violation('C12:activity-after-abort:wire', '%s: after sending A-ABORT the provider went on and wrote a PDU of '
+                                'type %02XH' % (state, e[1][0]), case)
+        elif e[0] == 'ind' and aborted and getattr(e[1], 'pdu_type', None) != 7:
+            what = 'a DIMSE message' if isinstance(e[1], tuple) else 'PDU type %r' % getattr(e[1], 'pdu_type', None)
+            raise Violation('C12:activity-after-abort:indication', '%s: after sending A-ABORT the provider went on and indicated %s '
+                            'to the local user' % (state, what), case)
     # (4) idle and closed at the end
     fin = sim.final()
     if fin['state'] != 1 or not fin['closed'] or not fin['sock_none']:
@@ -228,6 +242,8 @@ def corpus_streams():
     for name, raw in mutate.hostile_pdata():
         out.append(('pdata:' + name, raw))
         out.append(('pdata:' + name + '+echo', raw + refpdu.enc_pdu(convs.echo_rq(2))))
+        if name.startswith(('valid-then', 'two-valid')):
+            out.append(('pdata:' + name + '+release', raw + refpdu.enc_pdu(convs.REL_RQ)))
     out.append(('unknown-type', convs.UNKNOWN_PDU))
     out.append(('zero-type', b'\x00' * 10))
     out.append(('zero-header', b'\x00' * 6))
